@@ -1,13 +1,16 @@
 /-
 C17 — Scarce capacity is never over-committed in a scheduling pass.
 
-Property theorems only (helper lemmas: `Karp/Proofs/ReservationLemmas.lean`, `Karp/Proofs/DraTrackerLemmas.lean`).
+Property theorems only (helper lemmas: `Karp/Proofs/ReservationLemmas.lean`, `Karp/Proofs/DraTrackerLemmas.lean`,
+`Karp/Proofs/DraBudgetLemmas.lean`).
 Models: `Karp/Model/Reservation.lean` (ReservationManager, the NodeClaim reservation protocol, FinalizeScheduling, the
-reserved-offering branch of addToNewNodeClaim / trySchedule), `Karp/Model/DraTracker.lean` (AllocationTracker).
+reserved-offering branch of addToNewNodeClaim / trySchedule), `Karp/Model/DraTracker.lean` (AllocationTracker),
+`Karp/Model/DraBudget.lean` (the shared-counter budget: InitRemainingCounters / commitCounters / releaseCounters).
 Spec:   `Karp/Spec/Reserved.lean` (holder ledger; end state of a pass), evaluated on the real code by the driver.
 -/
 import Karp.Proofs.ReservationLemmas
 import Karp.Proofs.DraTrackerLemmas
+import Karp.Proofs.DraBudgetLemmas
 import Karp.Proofs.ReservedLedgerLemmas
 import Karp.Spec.Reserved
 
@@ -443,5 +446,90 @@ example : (match DraTracker.run (Tracker.new []) [.guarded "nc-a" [("it-x", [gpu
     | .error p => some p | .ok _ => none) = some .otherNodeClaim := by decide
 
 end DRA
+
+/-! ## Dynamic resource allocation: shared counters (partitionable devices)
+
+Full statement: *no shared device's counters are over-consumed, for all ResourceSlice / ResourceClaim populations.*
+Proved here is the part that lives in the tracker's accounting (`partitionable_devices.go`), for one counter of one
+pool: the budget starts at the counter minus the consumption of EVERY device of the pool that is allocated in the
+cluster — whether or not the device's slice targets the empty requirements the pools are gathered with at allocator
+construction (node-local slices and slices selected by custom labels do not) —, it equals `initial − Σ over NodeClaims
+of the max over their instance types` along every sequence of commits and releases, and when every commit passed the
+guard `checkCounters` it never goes negative; hence what is in use in the cluster plus the worst case of what the pass
+hands out never exceeds the counter.  The search that produces the allocations is NOT modelled (`_partial`); its
+outputs are judged on the real code by `Karp.Spec.DraExclusive.countersOK` (ops c17.alloc, c17.drapass). -/
+
+section Counters
+open Karp.DraBudget
+
+/-- the budgets are initialised at allocator construction from the pools gathered there, and `InitRemainingCounters`
+    deducts the devices allocated in the cluster (exclusively, or with consumed capacity) from BOTH device lists of a pool -/
+theorem fact_counter_init :
+    Karp.Gen.C17Facts.newAllocatorCounterCalls = ["GatherPools", "InitRemainingCounters"] ∧
+    Karp.Gen.C17Facts.initCountersRanges = ["pool.Devices", "pool.NonTargetingDevices"] ∧
+    Karp.Gen.C17Facts.initCountersGuards =
+      ["!at.PreallocatedDevices.Has(D[i].ID) && !lo.HasKey(at.PreallocatedConsumedCapacity, D[i].ID)",
+       "!at.PreallocatedDevices.Has(D[i].ID) && !lo.HasKey(at.PreallocatedConsumedCapacity, D[i].ID)"] := by decide
+
+/-- every `Commit` books counters and capacity, every `ReleaseInstanceTypes` gives them back, and the search tests a
+    device's capacity / exclusivity / counter budget before it books the device as allocating -/
+theorem fact_counter_booking :
+    Karp.Gen.C17Facts.trackerCommitBudgetCalls = ["commitCounters", "commitCapacity"] ∧
+    Karp.Gen.C17Facts.trackerReleaseBudgetCalls = ["releaseCounters", "releaseCapacity"] ∧
+    Karp.Gen.C17Facts.tryDeviceCounterCalls =
+      ["checkCapacity", "IsAllocated", "checkCounters", "deductAllocatingCapacity", "deductAllocatingCounters"] := by decide
+
+/-- **C17_counters_init** — `InitRemainingCounters` leaves the counter minus what every device of the pool that is
+    already allocated in the cluster consumes, targeting or not. -/
+theorem C17_counters_init (pre : List String) (p : Pool) :
+    initRemaining pre p = p.total - preConsumed pre (p.devices ++ p.nonTargeting) := by
+  simp only [initRemaining, Karp.Gen.C17Facts.initCountersRanges, List.foldl_cons, List.foldl_nil, Pool.field]
+  rw [preConsumed_append]
+  simp only [deduct_eq]
+  simp
+  omega
+
+/-- **C17_counters_accounting** — for every sequence of guarded commits and instance-type releases (any NodeClaims, any
+    instance types, any consumption) the remaining budget is exactly the initial one minus the worst case of what is
+    committed, and it is never negative. -/
+theorem C17_counters_accounting (init : Int) (h0 : 0 ≤ init) (ops : List DraBudget.Op)
+    (hg : guarded (St.init init) ops = true) :
+    (DraBudget.run (St.init init) ops).remaining = init - worst (DraBudget.run (St.init init) ops).stored ∧
+    0 ≤ (DraBudget.run (St.init init) ops).remaining := by
+  have I := run_inv init ops _ (inv_init init h0) hg
+  exact ⟨by have := I.sum; omega, I.rem⟩
+
+/-- **C17_counters_never_overconsumed_partial** — a pool whose partitions in use in the cluster fit its counter: after
+    every such sequence, what is in use in the cluster plus the worst case (Σ over NodeClaims of the max over their
+    instance types) of what the pass committed stays within the counter. -/
+theorem C17_counters_never_overconsumed_partial (pre : List String) (p : Pool)
+    (hc : preConsumed pre (p.devices ++ p.nonTargeting) ≤ p.total) (ops : List DraBudget.Op)
+    (hg : guarded (St.init (initRemaining pre p)) ops = true) :
+    preConsumed pre (p.devices ++ p.nonTargeting) + worst (DraBudget.run (St.init (initRemaining pre p)) ops).stored ≤ p.total := by
+  have hi := C17_counters_init pre p
+  have h0 : 0 ≤ initRemaining pre p := by omega
+  obtain ⟨h1, h2⟩ := C17_counters_accounting (initRemaining pre p) h0 ops hg
+  omega
+
+/-- a node-local partitionable device: counter 40, three partitions of 20; at allocator construction its slices do not
+    target the empty requirements, so all three are `NonTargetingDevices`; two of them are in use in the cluster -/
+def demoGpu : Pool := { total := 40, devices := [], nonTargeting := [("mig-0", 20), ("mig-1", 20), ("mig-2", 20)] }
+
+example : initRemaining ["mig-0", "mig-1"] demoGpu = 0 ∧ initRemaining ["mig-0"] demoGpu = 20 := by decide
+/-- with the budget exhausted the guard lets no further partition through … -/
+example : guarded (St.init (initRemaining ["mig-0", "mig-1"] demoGpu)) [.commit "node-a" [("it-x", 20)]] = false := by decide
+/-- … with one partition in use exactly one more fits; a second NodeClaim is refused until the first releases -/
+example : guarded (St.init (initRemaining ["mig-0"] demoGpu))
+    [.commit "nc-a" [("it-x", 20), ("it-y", 20)], .release "nc-a" ["it-x"], .release "nc-a" ["it-y"], .commit "nc-b" [("it-x", 20)]] = true ∧
+    guarded (St.init (initRemaining ["mig-0"] demoGpu)) [.commit "nc-a" [("it-x", 20), ("it-y", 20)], .commit "nc-b" [("it-x", 20)]] = false ∧
+    (DraBudget.run (St.init (initRemaining ["mig-0"] demoGpu)) [.commit "nc-a" [("it-x", 20), ("it-y", 20)], .release "nc-a" ["it-x"]]).remaining = 0 ∧
+    (DraBudget.run (St.init (initRemaining ["mig-0"] demoGpu)) [.commit "nc-a" [("it-x", 20), ("it-y", 20)], .release "nc-a" ["it-x", "it-y"]]).remaining = 20 := by decide
+/-- the deduction of the non-targeting devices is necessary: a budget initialised from `pool.Devices` alone (40 here)
+    lets a third partition through, 60 units of a counter of 40 -/
+example : guarded (St.init (deduct ["mig-0", "mig-1"] demoGpu.total demoGpu.devices)) [.commit "node-a" [("it-x", 20)]] = true ∧
+    preConsumed ["mig-0", "mig-1"] (demoGpu.devices ++ demoGpu.nonTargeting) +
+      worst (DraBudget.run (St.init (deduct ["mig-0", "mig-1"] demoGpu.total demoGpu.devices)) [.commit "node-a" [("it-x", 20)]]).stored = 60 := by decide
+
+end Counters
 
 end Karp.C17
